@@ -83,3 +83,44 @@ def run(ck):
                           f'{x} adds through {adds}: not the complete add-or-double routine')
     ck.floor('C11.R3', 'sibling pairs', len(set(sides['1']) & set(sides['2'])), 24)
     ck.floor('C11.R4', 'addition operators', nadd, 8)
+
+    r5_unchecked(ck, w)
+    from ..engines import ziplint
+    ck.rule('C11.R6', 'zip-truncated comparisons in the curves crate: equality over `zip(..).all(..)` also compares lengths or runs over fixed-size arrays (tables.ZIP_EQ_OK)')
+    ziplint.check(ck, w, 'C11.R6', ['curves'], lambda file: True, tables.ZIP_EQ_OK, 1)
+
+
+def unchecked_callers(w):
+    """{unchecked decoder / constructor: set of callers} over the curves and proofs crates (generic trait calls included)"""
+    from ..core import last_seg
+    tab = {}
+    for nid0 in w.mir_index():
+        for b in w.mir_bodies(nid0):
+            if b['_crate'] not in ('curves', 'proofs') or '::tests::' in b['_xid'] or '/tests' in b['file']:
+                continue
+            for blk in b['blocks']:
+                t = blk['t']
+                if t.get('k') != 'call':
+                    continue
+                c = mir_callee(t) or ''
+                if last_seg(c).endswith('_unchecked') and not c.startswith(('core::', 'alloc::', 'std::')):
+                    tab.setdefault(c, set()).add(b['_xid'].split('::{closure')[0])
+    return tab
+
+
+def r5_unchecked(ck, w):
+    import json, os
+    from .. import facts
+    ck.rule('C11.R5', 'who may call an unchecked decoder / constructor (from_bytes_unchecked, from_compressed_unchecked, from_uncompressed_unchecked, '
+                      'from_raw_bytes_unchecked, read_raw_unchecked, from_raw_unchecked, …): only the callers of rules/unchecked_callers.json — the checked '
+                      'wrappers that validate afterwards, the *_unchecked twins themselves and the format-dispatching readers.  A new caller decodes '
+                      'attacker-supplied bytes without the on-curve / subgroup / canonicity checks its checked sibling performs.')
+    ref = json.load(open(os.path.join(facts.VERIF, 'rules', 'unchecked_callers.json')))
+    cur = unchecked_callers(w)
+    n = 0
+    for c, callers in sorted(cur.items()):
+        for x in sorted(callers):
+            n += 1
+            ck.record('C11.R5', f'{x}|calls:{short(c)}', x in ref.get(c, []), 'tabled caller',
+                      f'{x} calls the unchecked {c} and is not in the who-may-call table: the value it decodes skips the checks of the checked decoder')
+    ck.floor('C11.R5', 'unchecked call pairs', n, 30)
